@@ -13,10 +13,10 @@ VAL = 'yarel::value::Value'
 
 def run(rep):
     w = rep.world('dev')
-    d1(rep, w)
-    d2(rep, w)
-    d3(rep, w)
-    d4(rep, w)
+    rep.guard(d1, rep, w)
+    rep.guard(d2, rep, w)
+    rep.guard(d3, rep, w)
+    rep.guard(d4, rep, w)
 
 
 def arm_blocks(f, variant):
@@ -118,7 +118,12 @@ def d2(rep, w):
                             continue
                         n = q[0][2]
                         if strip_generics(n).endswith('str::parse') or n.endswith('::parse'):
-                            reached = True
+                            ct = g.blocks[q[0][1]]['t']
+                            tys = [g.crate.tstr(a) for a in (ct['f'].get('ra') or ct['f'].get('a') or [])]
+                            if tys == ['f64']:
+                                reached = True
+                            else:
+                                bad.append('parse::<%s>' % ','.join(tys))
                         elif any(n.endswith(k) or k in n for k in KEEP):
                             ap = op_place(g.blocks[q[0][1]]['t']['args'][0])
                             if ap is not None:
